@@ -11,7 +11,7 @@ line protocol for the consumer-group acceptors (C04 `Commit`, C05 `Member`)
 <events> = `-` or events separated by `;`, fields by `:`, lists by `,` (`-` = empty):
   sub:m  revS:m  revE:m  asgS:m:g:tps  asgE:m  snap:m:tps  joinS:m:topics:0|1  joinR:m:g|-
   gen:g:m=t.t|m=t  dist:g:m=p.p|m=  syncR:m:g:tps  fS:m:p:f  fR:m:p:f:hi  offer:m:p:v:c|r
-  noOffset:m:p  del:m:p:o  commit:m:p:c:0|1  gone:m
+  noOffset:m:p  del:m:p:o  commit:m:p:c:0|1  gone:m  leaveR:m  expire:m
 The class of a rejection is `impl` (a guard that stands for a mechanism of the code under test),
 `env` (the coordinator model disagrees with the simulator: harness trouble) or `harness`.
 -/
@@ -51,6 +51,8 @@ def parseEv (s : String) : Option Ev :=
   | ["del", m, p, o] => do some (.deliver (← m.toNat?) (← p.toNat?) (← o.toNat?))
   | ["commit", m, p, c, ok] => do some (.commit (← m.toNat?) (← p.toNat?) (← c.toNat?) (ok == "1"))
   | ["gone", m] => do some (.gone (← m.toNat?))
+  | ["leaveR", m] => do some (.leaveR (← m.toNat?))
+  | ["expire", m] => do some (.expire (← m.toNat?))
   | _ => none
 
 def parseEvs (s : String) : Option (List Ev) :=
@@ -97,6 +99,7 @@ def explainMember (s : Member.St) : Ev → String
       else if g' != g then "harness:assign-callback-generation"
       else s!"impl:adopted-differs-from-distributed adopted={tps} distributed={tps'}"
   | .asgE _ => "harness:asgE-without-asgS"
+  | .expire _ => "impl:session-expired-during-revoke-callback"
   | .snap m tps => s!"impl:assignment()-differs-from-adopted observed={tps} adopted={(s.mem m).cur}"
   | .deliver m p o =>
     if !(s.mem m).gate then "impl:delivered-while-gate-closed"
